@@ -96,6 +96,15 @@ func funcTags(sp *FuncSpec) []string {
 			}
 		}
 	}
+	for _, t := range sp.SortTags {
+		if !seen[t] {
+			seen[t] = true
+			out = append(out, t)
+		}
+	}
+	for _, cs := range sp.Asserts {
+		add(cs)
+	}
 	add(sp.Requires)
 	add(sp.Ensures)
 	for _, l := range sp.Loops {
@@ -261,8 +270,8 @@ func runCheck(id, tier, repo string, seed int, writeBaseline bool) int {
 		solver.AllAgree = true
 		solver.NoCache = true
 	} else {
-		solver.TimeoutS = 30
-		solver.QuickS = 5
+		solver.TimeoutS = 60
+		solver.QuickS = 6
 	}
 	t1 := time.Now()
 	solver.DischargeAll(all, 14)
